@@ -3,7 +3,7 @@ import ast
 import copy
 import re
 import threading
-from typing import List, Tuple, Union, cast
+from typing import Dict, List, Optional, Tuple, Union, cast
 
 from func_adl.ast.call_stack import argument_stack, stack_frame
 from func_adl.ast.func_adl_ast_utils import (
@@ -61,12 +61,14 @@ def _other_parameter_names(args: ast.arguments) -> List[str]:
     )
 
 
-def make_args_unique(a: ast.Lambda) -> ast.Lambda:
+def make_args_unique(a: ast.Lambda, rename_keyword_only: bool = False) -> ast.Lambda:
     """
     Replaces the lambda with a new lambda, with unique arguments names
 
     Args:
         a       Lambda function to be copied over
+        rename_keyword_only     Keyword-only parameters are how the lambda is called: they are
+                only renamed on request (by a caller that takes care of the call)
 
     Returns:
         l       New copy of the lambda. The original is unmodified.
@@ -79,11 +81,33 @@ def make_args_unique(a: ast.Lambda) -> ast.Lambda:
             self._seen_lambda = False
 
         def visit_Lambda(self, node: ast.Lambda) -> ast.Lambda:
-            if self._seen_lambda:
-                mapping = [(a.arg, a.arg) for a in node.args.args]
-            else:
-                mapping = [(a.arg, arg_name()) for a in node.args.args]
-                self._seen_lambda = True
+            l_args = node.args
+            rename = not self._seen_lambda
+            self._seen_lambda = True
+
+            def new_name(a: Optional[ast.arg], do_rename: bool) -> Optional[ast.arg]:
+                if a is None:
+                    return None
+                return ast.arg(arg=arg_name() if do_rename else a.arg, annotation=None)
+
+            new_posonly = [new_name(a, rename) for a in l_args.posonlyargs]
+            new_plain = [new_name(a, rename) for a in l_args.args]
+            new_kwonly = [new_name(a, rename and rename_keyword_only) for a in l_args.kwonlyargs]
+            new_vararg = new_name(l_args.vararg, rename)
+            new_kwarg = new_name(l_args.kwarg, rename)
+            mapping = [
+                (old.arg, new.arg)  # type: ignore
+                for old, new in zip(
+                    l_args.posonlyargs
+                    + l_args.args
+                    + l_args.kwonlyargs
+                    + [a for a in (l_args.vararg, l_args.kwarg) if a is not None],
+                    new_posonly
+                    + new_plain
+                    + new_kwonly
+                    + [a for a in (new_vararg, new_kwarg) if a is not None],
+                )
+            ]
 
             # Defaults are evaluated outside the lambda: its parameters hide nothing there.
             node.args.defaults = [self.visit(d) for d in node.args.defaults]
@@ -91,15 +115,14 @@ def make_args_unique(a: ast.Lambda) -> ast.Lambda:
                 self.visit(d) if d is not None else None for d in node.args.kw_defaults
             ]
 
-            # The other kinds of parameter keep their name, and hide an outer one all the same
-            others = [(n, n) for n in _other_parameter_names(node.args)]
-            for old, new in mapping + others:
+            for old, new in mapping:
                 self._arg_stack.append((old, new))
 
             node.body = self.visit(node.body)
 
-            node.args.args = [ast.arg(arg=new, annotation=None) for old, new in mapping]
-            for _ in mapping + others:
+            l_args.posonlyargs, l_args.args, l_args.kwonlyargs = new_posonly, new_plain, new_kwonly
+            l_args.vararg, l_args.kwarg = new_vararg, new_kwarg
+            for _ in mapping:
                 self._arg_stack.pop()
 
             return node
@@ -113,24 +136,32 @@ def make_args_unique(a: ast.Lambda) -> ast.Lambda:
     return replace_args().visit(copy.deepcopy(a))
 
 
-def _binds_all_parameters(call_node: ast.Call) -> bool:
-    """Can the call of a lambda be replaced by the lambda's body - does every parameter get
-    exactly one value from a positional argument, a keyword or its default?"""
+def _bind_lambda_call(call_node: ast.Call) -> Optional[Dict[str, ast.expr]]:
+    """Which expression each parameter of a called lambda gets, the way python binds them -
+    from a positional argument, a keyword or its default. `None` if the call can't be
+    replaced by the lambda's body (starred arguments, `*args`, missing or surplus arguments)."""
     l_args = call_node.func.args  # type: ignore
-    if l_args.vararg or l_args.kwarg or l_args.kwonlyargs or l_args.posonlyargs:
-        return False
-    if any(isinstance(a, ast.Starred) for a in call_node.args) or len(call_node.args) > len(
-        l_args.args
+    if l_args.vararg or l_args.kwarg:
+        return None
+    positional = [a.arg for a in l_args.posonlyargs + l_args.args]
+    by_keyword = [a.arg for a in l_args.args + l_args.kwonlyargs]
+    if len(call_node.args) > len(positional) or any(
+        isinstance(a, ast.Starred) for a in call_node.args
     ):
-        return False
-    names = [a.arg for a in l_args.args]
-    bound = names[: len(call_node.args)]
+        return None
+    bound: Dict[str, ast.expr] = dict(zip(positional, call_node.args))
     for k in call_node.keywords:
-        if k.arg is None or k.arg not in names or k.arg in bound:
-            return False
-        bound.append(k.arg)
-    with_default = names[len(names) - len(l_args.defaults) :] if l_args.defaults else []
-    return all(n in bound or n in with_default for n in names)
+        if k.arg is None or k.arg not in by_keyword or k.arg in bound:
+            return None
+        bound[k.arg] = k.value
+    for name, default in zip(positional[len(positional) - len(l_args.defaults) :], l_args.defaults):
+        bound.setdefault(name, default)
+    for a, default in zip(l_args.kwonlyargs, l_args.kw_defaults):
+        if default is not None:
+            bound.setdefault(a.arg, default)
+    if len(bound) != len(positional) + len(l_args.kwonlyargs):
+        return None
+    return bound
 
 
 def convolute(ast_g: ast.Lambda, ast_f: ast.Lambda):
@@ -502,33 +533,25 @@ class simplify_chained_calls(FuncADLNodeTransformer):
 
         Also, if this is a First() call, then move the call inside it.
         """
-        if type(call_node.func) is ast.Lambda and _binds_all_parameters(call_node):
-            arg_asts = [self.visit(a) for a in call_node.args]
-            keyword_asts = [(k.arg, self.visit(k.value)) for k in call_node.keywords]
-            # Parameters the call leaves out take their default (evaluated outside the lambda)
-            l_args = call_node.func.args
-            given = {a.arg for a in l_args.args[: len(arg_asts)]} | {k for k, _ in keyword_asts}
-            keyword_asts += [
-                (a.arg, self.visit(d))
-                for a, d in zip(l_args.args[len(l_args.args) - len(l_args.defaults) :], l_args.defaults)
-                if a.arg not in given
-            ]
+        bound = _bind_lambda_call(call_node) if type(call_node.func) is ast.Lambda else None
+        if bound is not None:
+            # Arguments, and the defaults of parameters the call leaves out, are evaluated
+            # outside the lambda.
+            bound = {name: self.visit(value) for name, value in bound.items()}
 
-            # The arguments come from the scope outside the lambda, and can use a variable
-            # that has the same name as one of the lambda's parameters. Once they have been
-            # put in place they may be visited again (what a fusion rule builds is re-visited),
-            # so the parameters get names nothing else uses before anything is substituted.
-            old_names = [a.arg for a in call_node.func.args.args]
-            func = make_args_unique(call_node.func)
-            new_names = [a.arg for a in func.args.args]
-            renamed = dict(zip(old_names, new_names))
+            # They can use a variable that has the same name as one of the lambda's parameters.
+            # Once they have been put in place they may be visited again (what a fusion rule
+            # builds is re-visited), so the parameters get names nothing else uses before
+            # anything is substituted.
+            l_args = call_node.func.args
+            old_names = [a.arg for a in l_args.posonlyargs + l_args.args + l_args.kwonlyargs]
+            func = make_args_unique(call_node.func, rename_keyword_only=True)
+            f_args = func.args
+            new_names = [a.arg for a in f_args.posonlyargs + f_args.args + f_args.kwonlyargs]
 
             with stack_frame(self._arg_stack):
-                for a_name, arg in zip(new_names, arg_asts):
-                    self._arg_stack.define_name(a_name, arg)
-                for k_name, arg in keyword_asts:
-                    if k_name in renamed:
-                        self._arg_stack.define_name(renamed[k_name], arg)
+                for old_name, new_name in zip(old_names, new_names):
+                    self._arg_stack.define_name(new_name, bound[old_name])
                 # Now, evaluate the expression, and then lift it.
                 return self.visit(func.body)
         elif _is_method_call_on_first(call_node):
